@@ -3,7 +3,8 @@
 
     src/prompt_toolkit/formatted_text/ansi.py   ANSI._parse_corot, _select_graphic_rendition,
                                                 _create_style_string, ansi_escape, ANSI.format / __mod__
-    src/prompt_toolkit/formatted_text/html.py   html_escape (HTML.__init__ : see Model/C18Html.lean)
+    src/prompt_toolkit/formatted_text/html.py   html_escape as fixed in cfcf123 (HTML.__init__, HTML.format / __mod__:
+                                                see Model/C18Html.lean)
     src/prompt_toolkit/formatted_text/base.py   to_formatted_text, Template.format, merge_formatted_text
     src/prompt_toolkit/formatted_text/utils.py  fragment_list_to_text/len/width, split_lines, to_plain_text
     src/prompt_toolkit/layout/utils.py          explode_text_fragments
